@@ -84,6 +84,9 @@ func (a *MobileIdentity5GS) SetMobileIdentity5GSContents(mobileIdentity5GSConten
 // All other values are unused and shall be interpreted
 // as "SUCI", if received by the UE
 func (a *MobileIdentity5GS) GetTypeOfIdentity() (string, error) {
+	if len(a.Buffer) < 1 {
+		return "", errors.New("mobile identity contents are empty")
+	}
 	idType := a.Buffer[0] & high5BitMask
 	switch idType {
 	case noIdentity:
@@ -137,6 +140,10 @@ func (a *MobileIdentity5GS) GetSUCI() string {
 		supiFormat := (a.Buffer[0] & low4BitMask) >> 4
 		if supiFormat == suci {
 			return naiToString(a.Buffer)
+		}
+		if len(a.Buffer) < 9 {
+			// too short for a SUCI in IMSI format
+			return ""
 		}
 
 		mcc := a.GetMCC()
@@ -192,6 +199,9 @@ func (a *MobileIdentity5GS) GetPlmnID() string {
 
 // GetMCC
 func (a *MobileIdentity5GS) GetMCC() string {
+	if len(a.Buffer) < 3 {
+		return ""
+	}
 	mccDigit3 := (a.Buffer[2] & high4BitMask)
 	tmpBytes := []byte{bits.RotateLeft8(a.Buffer[1], 4), (mccDigit3 << 4)}
 	mcc := hex.EncodeToString(tmpBytes)
@@ -201,6 +211,9 @@ func (a *MobileIdentity5GS) GetMCC() string {
 
 // GetMNC
 func (a *MobileIdentity5GS) GetMNC() string {
+	if len(a.Buffer) < 4 {
+		return ""
+	}
 	mncDigit3 := (a.Buffer[2] & low4BitMask) >> 4
 	tmpBytes := []byte{bits.RotateLeft8(a.Buffer[3], 4), mncDigit3 << 4}
 	mnc := hex.EncodeToString(tmpBytes)
@@ -219,11 +232,17 @@ func (a *MobileIdentity5GS) Get5GGUTI() string {
 
 // GetAmfID
 func (a *MobileIdentity5GS) GetAmfID() string {
+	if len(a.Buffer) < 7 {
+		return ""
+	}
 	return hex.EncodeToString(a.Buffer[4:7])
 }
 
 // GetAmfRegionID
 func (a *MobileIdentity5GS) GetAmfRegionID() string {
+	if len(a.Buffer) < 5 {
+		return ""
+	}
 	return hex.EncodeToString(a.Buffer[4:5])
 }
 
@@ -240,6 +259,9 @@ func (a *MobileIdentity5GS) GetAmfSetID() string {
 		amfSetStartPoint = 1
 	}
 
+	if len(a.Buffer) < amfSetStartPoint+2 {
+		return ""
+	}
 	amfSetID := (uint16(a.Buffer[amfSetStartPoint])<<2 + uint16((a.Buffer[amfSetStartPoint+1])&GetBitMask(8, 2))>>6)
 	amfSetID_string := strconv.FormatUint(uint64(amfSetID), 10)
 	return amfSetID_string
@@ -256,6 +278,9 @@ func (a *MobileIdentity5GS) GetAmfPointer() string {
 	if idType == "5G-S-TMSI" && err == nil {
 		amfPointerStartPoint = 2
 	}
+	if len(a.Buffer) < amfPointerStartPoint+1 {
+		return ""
+	}
 	AMFPointer := (a.Buffer[amfPointerStartPoint]) & GetBitMask(6, 0)
 	AMFPointer_string := strconv.FormatUint(uint64(AMFPointer), 10)
 	return AMFPointer_string
@@ -265,10 +290,16 @@ func (a *MobileIdentity5GS) GetAmfPointer() string {
 func (a *MobileIdentity5GS) Get5GTMSI() string {
 	idType, err := a.GetTypeOfIdentity()
 	if idType == "5G-GUTI" && err == nil {
+		if len(a.Buffer) < 7 {
+			return ""
+		}
 		tmsi5G_string := hex.EncodeToString(a.Buffer[7:])
 		return tmsi5G_string
 
 	} else if idType == "5G-S-TMSI" && err == nil {
+		if len(a.Buffer) < 7 {
+			return ""
+		}
 
 		tmsi5G := a.Buffer[3:7]
 		tmsi5G_string := hex.EncodeToString(tmsi5G[0:])
@@ -298,6 +329,9 @@ func (a *MobileIdentity5GS) GetIMEISV() string {
 }
 
 func (a *MobileIdentity5GS) Get5GSTMSI() (tMSI5GS string, mobileIdType string, err error) {
+	if len(a.Buffer) < 3 {
+		return "", "5G-S-TMSI", errors.New("mobile identity contents are too short for a 5G-S-TMSI")
+	}
 	partOfAmfId := hex.EncodeToString(a.Buffer[1:3])
 	tmsi5g := a.Get5GTMSI()
 	tMSI5GS = partOfAmfId + tmsi5g
